@@ -71,7 +71,7 @@ func hasBackendGuard(fd *ast.FuncDecl) int {
 
 // Facts of hub.go / session.go / virtualsession.go / backend_server.go used by the hub model (C03–C07, C19).
 func genHub(c *ctx) *leanFile {
-	l := c.newLean("Hub", "hub.go", "session.go", "virtualsession.go", "backend_server.go", "room.go")
+	l := c.newLean("Hub", "hub.go", "session.go", "virtualsession.go", "backend_server.go", "room.go", "clientsession.go", "backend_configuration.go", "grpc_remote_client.go")
 	sess := c.file("session.go")
 	scope := pkgValues(sess)
 
@@ -334,6 +334,57 @@ func genHub(c *ctx) *leanFile {
 		})
 	}
 	l.boolean("roomRequestOrderPerType", perType, fdReq != nil, "Room.processBackendRoomRequestRoom not found")
+
+	// the flush on resume hands every queued message to sendMessageUnlocked (which queues again what cannot be
+	// written) -- nothing is taken out of the queue before it has been handed over
+	cs := c.file("clientsession.go")
+	fdFlush := findFunc(cs, "ClientSession", "SendMessages")
+	flushAll := false
+	if fdFlush != nil && fdFlush.Body != nil {
+		ast.Inspect(fdFlush.Body, func(nd ast.Node) bool {
+			rs, ok := nd.(*ast.RangeStmt)
+			if !ok || rs.Body == nil || len(rs.Body.List) != 1 {
+				return true
+			}
+			if es, ok := rs.Body.List[0].(*ast.ExprStmt); ok {
+				if call, ok := es.X.(*ast.CallExpr); ok {
+					if sel, ok := call.Fun.(*ast.SelectorExpr); ok && sel.Sel.Name == "sendMessageUnlocked" && isIdent(rs.X, "messages") {
+						flushAll = true
+					}
+				}
+			}
+			return true
+		})
+	}
+	l.boolean("flushHandsOverEveryMessage", flushAll, fdFlush != nil, "ClientSession.SendMessages not found")
+
+	// a connection proxied from another server refuses a message once it is closed (the message is then queued
+	// for the session) and never blocks: closed-check first, then a non-blocking send
+	grc := c.file("grpc_remote_client.go")
+	fdRemote := findFunc(grc, "remoteGrpcClient", "SendMessage")
+	remoteOk := false
+	if fdRemote != nil && fdRemote.Body != nil && len(fdRemote.Body.List) >= 2 {
+		first, okIf := fdRemote.Body.List[0].(*ast.IfStmt)
+		closedFirst := false
+		if okIf && strings.Contains(nodeText(c, first.Cond), "closeCtx.Err()") && len(first.Body.List) == 1 {
+			if ret, ok := first.Body.List[0].(*ast.ReturnStmt); ok && len(ret.Results) == 1 && isIdent(ret.Results[0], "false") {
+				closedFirst = true
+			}
+		}
+		nonBlocking := false
+		ast.Inspect(fdRemote.Body, func(nd ast.Node) bool {
+			if sel, ok := nd.(*ast.SelectStmt); ok {
+				for _, cl := range sel.Body.List {
+					if cc, ok := cl.(*ast.CommClause); ok && cc.Comm == nil {
+						nonBlocking = true
+					}
+				}
+			}
+			return true
+		})
+		remoteOk = closedFirst && nonBlocking
+	}
+	l.boolean("proxiedSendRefusesWhenClosed", remoteOk, fdRemote != nil, "remoteGrpcClient.SendMessage not found")
 	return l
 }
 
